@@ -185,6 +185,8 @@ pub fn replay(cases_path: &str, out_path: &str, labels_path: &str) {
             check_voice(&back, &case["says"], &labels).map_err(|(k, m)| (format!("serde:{}", k), m))?;
             let engine = Engine::load(&[&path]).map_err(|e| ("engine:error".to_string(), format!("Engine::load failed: {}", e)))?;
             check_engine_defaults(&engine, &case["says"])?;
+            // the voice the engine holds (what synthesis will use) is what the file says, too
+            check_voice(&engine.voices[0], &case["says"], &labels).map_err(|(k, m)| (format!("engine:{}", k), m))?;
             Ok(n)
         });
         std::fs::remove_file(&path).ok();
@@ -194,9 +196,37 @@ pub fn replay(cases_path: &str, out_path: &str, labels_path: &str) {
             Err(p) => (0, Some((format!("panic:{}", p), p))),
         }
     });
+    // hot reload: different files written, one after the other, to ONE path and loaded while the engine of the previous file
+    // is still alive - every load must yield what the file says now
+    let stride = (cases.len() / 400).max(1);
+    let mut reload_bad: Vec<(usize, String, String)> = Vec::new();
+    {
+        let mut prev: Option<Engine> = None;
+        for (i, case) in cases.iter().enumerate().filter(|(i, _)| i % stride == 0) {
+            let bytes = voicegen::render(&case["voice"]);
+            let path = voicegen::scratch(&bytes, "c04_reload");
+            let r = guarded(|| -> Result<Engine, (String, String)> {
+                let engine = Engine::load(&[&path]).map_err(|e| ("reload:error".to_string(), format!("Engine::load failed on a rewritten path: {}", e)))?;
+                check_engine_defaults(&engine, &case["says"]).map_err(|(k, m)| (format!("reload:{}", k), m))?;
+                check_voice(&engine.voices[0], &case["says"], &labels).map_err(|(k, m)| (format!("reload:{}", k), m))?;
+                Ok(engine)
+            });
+            match r {
+                Ok(Ok(e)) => prev = Some(e),
+                Ok(Err((k, m))) => reload_bad.push((i, k, format!("file rewritten at the same path while the previous engine is alive: {}", m))),
+                Err(p) => reload_bad.push((i, format!("panic:{}", p), p)),
+            }
+            std::fs::remove_file(&path).ok();
+        }
+        drop(prev);
+    }
     let mut out = Out::create(out_path);
     let mut failed = 0;
     let mut sel = 0;
+    for (i, k, m) in reload_bad {
+        failed += 1;
+        out.line(&json!({"case": i, "key": k, "msg": m, "fam": cases[i]["fam"]}));
+    }
     for (i, (n, bad)) in results.into_iter().enumerate() {
         sel += n;
         if let Some((key, msg)) = bad {
@@ -282,6 +312,46 @@ pub fn record(seed: u64, n: usize, out_path: &str) {
             Ok((t, p, words)) => out.line(&json!({"ev": "sel", "model": key, "state": state, "label": line,
                 "tree": t.map(|x| x as i64).unwrap_or(-1), "pdf": p.map(|x| x as i64).unwrap_or(-1), "words": words})),
             Err(m) => out.line(&json!({"ev": "panic", "in": "select", "msg": m, "label": line})),
+        }
+    }
+    // what synthesis is handed for a whole utterance (Models) is, label by label, what the file's trees select for that
+    // label alone - whatever the other labels of the utterance are (repeated lines, repeated phoneme contexts)
+    let weights = engine.condition.get_interporation_weight();
+    for _ in 0..(n / 25).max(4) {
+        let nl = 2 + rng.below(8);
+        let lines = if rng.chance(0.6) { corpus.echoing(&mut rng, nl) } else { corpus.utterance(&mut rng, nl) };
+        let labels: Vec<Label> = match lines.iter().map(|l| l.parse()).collect::<Result<Vec<_>, _>>() {
+            Ok(l) => l,
+            Err(_) => continue,
+        };
+        let r = guarded(|| {
+            let m = jbonsai::model::Models::new(&labels, &engine.voices, weights);
+            let dur = m.duration();
+            let s = rng.below(voice.stream_models.len());
+            let ms = m.model_stream(s);
+            let stream: Vec<(Vec<(f64, f64)>, f64)> = ms.stream.iter().map(|(p, w)| (p.iter().map(|mv| (mv.0, mv.1)).collect(), *w)).collect();
+            (dur.iter().map(|mv| (mv.0, mv.1)).collect::<Vec<_>>(), s, stream)
+        });
+        match r {
+            Ok((dur, s, stream)) => {
+                if dur.len() != labels.len() * nstate || stream.len() != labels.len() * nstate {
+                    out.line(&json!({"ev": "panic", "in": "Models", "msg": format!("{} duration entries, {} stream entries for {} labels x {} states", dur.len(), stream.len(), labels.len(), nstate)}));
+                    continue;
+                }
+                for (i, line) in lines.iter().enumerate() {
+                    let st = rng.below(nstate);
+                    let d = dur[i * nstate + st];
+                    out.line(&json!({"ev": "usel", "model": "dur", "state": 2 + st, "label": line, "pos": i, "words": [f32bits(d.0), f32bits(d.1)]}));
+                    let (p, w) = &stream[i * nstate + st];
+                    let mut words: Vec<i32> = p.iter().map(|mv| f32bits(mv.0)).collect();
+                    words.extend(p.iter().map(|mv| f32bits(mv.1)));
+                    if voice.stream_models[s].metadata.is_msd {
+                        words.push(f32bits(*w));
+                    }
+                    out.line(&json!({"ev": "usel", "model": format!("stream:{}", md.stream_type[s]), "state": 2 + st, "label": line, "pos": i, "words": words}));
+                }
+            }
+            Err(m) => out.line(&json!({"ev": "panic", "in": "Models", "msg": m, "lines": lines})),
         }
     }
     out.finish();
